@@ -426,3 +426,87 @@ def make_sparse_script(rng, name, kind=None):
     g.emit(rng.choice([f"intoiter {rng.choice([0, 1, n, n + 3])}", f"intokeys {rng.choice([0, 1, n])}", f"intovalues {rng.choice([0, 2, n])}",
                        f"drain {rng.choice([0, 1, n + 1])}", "iter"]))
     return f"=== {name} plan={plan} nkeys={nb}\n" + "\n".join(g.lines) + "\n"
+
+
+FAULT_MATRIX = [
+    # (arm, operation template) -- every callback class at every operation that runs it
+    ("droppanic_nth", "retain"), ("droppanic_nth", "clear"), ("droppanic_nth", "drain"), ("droppanic_nth", "dropmap"),
+    ("droppanic_nth", "ins_present"), ("droppanic_nth", "rem_present"), ("droppanic_nth", "intoiter"), ("droppanic_nth", "withcap"),
+    ("droppanic_nth", "extend_present"), ("droppanic_nth", "o_clone_from"),
+    ("predpanic_nth", "retain"), ("predpanic_nth", "extractif"),
+    ("eqpanic_nth", "ins_present"), ("eqpanic_nth", "rem_present"), ("eqpanic_nth", "get_present"), ("eqpanic_nth", "entry_present"),
+    ("hashpanic_nth", "ins_absent"), ("hashpanic_nth", "reserve"), ("hashpanic_nth", "entry_absent"), ("hashpanic_nth", "shrinktofit"),
+    ("hashpanic_nth", "extend_absent"), ("hashpanic_nth", "ins_absent_full"), ("hashpanic_nth", "rentry_absent_full"),
+    ("clonepanic_nth", "o_clone"), ("clonepanic_nth", "o_clone_from"),
+]
+
+def make_fault_matrix_script(rng, name, kind=None):
+    """One block per (callback class, operation) pair: build a map (optionally at exact capacity and
+    full of tombstones, so that the armed insertion rehashes in place), arm the k-th call, run the
+    operation, look at the result (the checks run after every step), clear."""
+    kind = kind or rng.choice(["map-drop", "map-drop", "map-plain"])
+    plan = rng.choice(PLANS)
+    g = Gen(rng, 64, plan, kind)
+    g.resync = False; g.many = False; g.forget = False
+    g.header()
+    pairs = list(FAULT_MATRIX)
+    rng.shuffle(pairs)
+    for arm, op in pairs[: rng.choice([8, 12, len(pairs)])]:
+        full = op.endswith("_full")
+        n = rng.choice([7, 14, 28, 56]) if full else rng.choice([3, 7, 12, 20, 28, 40])
+        g.emit("dropmap"); g.contents = {}
+        for k in range(n):
+            g.op_insert(k)
+        if full:
+            # exact capacity, then mostly tombstones: the next insertion of a new key rehashes in place
+            for k in rng.sample(range(n), n // 2 + 1 + rng.randrange(0, max(1, n // 2 - 1))):
+                g.op_remove(k)
+        elif rng.random() < 0.5 and n > 4:
+            for k in rng.sample(range(n), rng.randrange(1, n // 2)):
+                g.op_remove(k)
+        if op == "o_clone_from":
+            g.emit("o_clone")            # the other map gets contents to be cloned / dropped
+            for k in rng.sample(range(60), 5):
+                g.op_insert(k)
+        kth = rng.choice([0, 0, 1, 1, 2, 3, 5])
+        g.emit(f"arm {arm} {kth}")
+        pres = g.present() if g.contents else 0
+        ab = g.absent()
+        ab = ab if ab is not None else 63
+        if op == "retain":
+            keep = [x for x in g.contents if rng.random() < rng.choice([0.0, 0.3, 0.7])]
+            g.emit(f"retain {rng.randrange(3)} " + " ".join(map(str, keep)))
+        elif op in ("clear", "dropmap", "shrinktofit", "o_clone", "o_clone_from"):
+            g.emit(op)
+        elif op == "drain":
+            g.emit(f"drain {rng.choice([0, 1, 2, 1000])}")
+        elif op == "intoiter":
+            g.emit(f"intoiter {rng.choice([0, 1, 2])}")
+        elif op == "withcap":
+            g.emit(f"withcap {rng.choice([0, 8])}")
+        elif op == "extractif":
+            sel = [x for x in range(64) if rng.random() < 0.5]
+            g.emit(f"extractif {rng.choice([1, 3, 1000])} " + " ".join(map(str, sel)))
+        elif op == "ins_present":
+            g.emit(f"insert {pres} {g.st()} {g.val()}")
+        elif op == "rem_present":
+            g.emit(f"remove {pres}")
+        elif op == "get_present":
+            g.emit(f"get {pres}")
+        elif op == "entry_present":
+            g.emit(rng.choice([f"entry_insert {pres} {g.st()} {g.val()}", f"entry_remove {pres} {g.st()}", f"entry_or_insert {pres} {g.st()} {g.val()}"]))
+        elif op in ("ins_absent", "ins_absent_full"):
+            g.emit(f"insert {ab} {g.st()} {g.val()}")
+        elif op == "entry_absent":
+            g.emit(rng.choice([f"entry_or_insert {ab} {g.st()} {g.val()}", f"entry_insert {ab} {g.st()} {g.val()}", f"tryinsert {ab} {g.st()} {g.val()}"]))
+        elif op == "rentry_absent_full":
+            g.emit(rng.choice([f"rentry_or_insert {ab} {g.st()} {g.val()}", f"rentry_drop {ab} {g.st()}"]))
+        elif op == "reserve":
+            g.emit(f"reserve {rng.choice([1, 8, 29, 57, 100])}")
+        elif op in ("extend_present", "extend_absent"):
+            ks = list(g.contents)[:4] if op == "extend_present" and g.contents else [ab, (ab + 1) % 64, (ab + 7) % 64]
+            g.emit("extend " + " ".join(f"{k}:{g.st()}:{g.val()}" for k in ks))
+        # look at what is left through every observer
+        g.emit("len"); g.emit("iter"); g.emit(f"get {pres}"); g.emit(f"contains {ab}")
+    g.emit("dropmap")
+    return f"=== {name} plan={plan} nkeys=64\n" + "\n".join(g.lines) + "\n"
